@@ -978,7 +978,7 @@ impl World {
                 calls,
             },
             Ok(Err(e)) => Outcome::Err {
-                msg: format!("{e:#}"),
+                msg: e.root_cause().to_string(),
                 attempted: log,
                 calls,
             },
